@@ -1478,3 +1478,96 @@ package spec
 //@   requires forall k string :: oCnt(jv(data), k) > 0 ==> isExtKey(k) || isPathKey(k)
 //@   requires forall k string :: oCnt(jv(data), k) > 0 && isPathKey(k) ==> decOKOf("PathItem", oVal(jv(data), k)) && encOf(decOf("PathItem", oVal(jv(data), k))) == oVal(jv(data), k)
 //@   ensures  [C01] lossless @@ result != nil ==> sameObject(jv(result), jv(data))
+
+// ---- Responses: "default" and decimal status codes flattened beside the extensions
+//@ specfn itoa(int) string
+//@ specfn atoi(string) int
+//@ specfn atoiOK(string) bool
+//@ ext strconv.Itoa
+//@   params i
+//@   assigns nothing
+//@   ensures result == itoa(i)
+//@ ext strconv.Atoi
+//@   params s
+//@   assigns nothing
+//@   ensures (result1 == nil) == atoiOK(s)
+//@   ensures result1 == nil ==> result0 == atoi(s)
+// decimal printing is injective, parses back, and never looks like "default" or an extension key
+//@ axiom forall n int :: triggers(itoa(n)) && (atoiOK(itoa(n)) && atoi(itoa(n)) == n && itoa(n) != "default" && !hasPrefix(itoa(n), "x-") && !isExtKey(itoa(n)))
+// a member of a responses object that names a status code; codeKeyOf picks, for a number, one member that parses to it (a choice function)
+//@ define codeKey(j smt:JV, k string) bool = oCnt(j, k) > 0 && k != "default" && !hasPrefix(k, "x-") && atoiOK(k)
+//@ specfn codeKeyOf(smt:JV, int) string
+//@ axiom forall j jsonvalue, k string :: triggers(codeKeyOf(j, atoi(k))) && (codeKey(j, k) ==> codeKey(j, codeKeyOf(j, atoi(k))) && atoi(codeKeyOf(j, atoi(k))) == atoi(k))
+//@ define uniqueCode(j smt:JV, k string) bool = forall k2 string :: codeKey(j, k2) && atoi(k2) == atoi(k) ==> k2 == k
+
+//@ func (*ResponsesProps).UnmarshalJSON
+//@   property C01, C07, C19
+//@   requires r != nil
+//@   assigns  r.Default, r.StatusCodeResponses, map(r.StatusCodeResponses)
+//@   ensures  [C01] default-kept @@ result == nil && oCnt(jv(data), "default") > 0 ==> r.Default != nil && freshObj(r.Default) && *r.Default == decOf("Response", oVal(jv(data), "default"))
+//@   ensures  [C01] default-untouched @@ result == nil && oCnt(jv(data), "default") == 0 ==> r.Default == old(r.Default)
+//@   ensures  [C01,C19] codes-kept @@ result == nil ==> (forall k string :: codeKey(jv(data), k) ==> has(r.StatusCodeResponses, atoi(k)) && (uniqueCode(jv(data), k) ==> r.StatusCodeResponses[atoi(k)] == decOf("Response", oVal(jv(data), k))))
+//@   ensures  [C07] only-codes-added @@ forall n int :: has(r.StatusCodeResponses, n) && !old(has(r.StatusCodeResponses, n)) ==> codeKey(jv(data), codeKeyOf(jv(data), n)) && atoi(codeKeyOf(jv(data), n)) == n
+//@   ensures  [C07] non-object-is-error @@ !isObj(jv(data)) ==> result != nil
+//@   loop 0 invariant res != nil && (forall k string :: has(res, k) == (oCnt(jv(data), k) > 0 && k != "default")) && (forall k string :: has(res, k) ==> jv(res[k]) == oVal(jv(data), k))
+//@   loop 0 invariant (r.StatusCodeResponses == old(r.StatusCodeResponses) || (old(r.StatusCodeResponses) == nil && fresh(r.StatusCodeResponses))) && (r.StatusCodeResponses == nil ==> (forall k string :: !($seen0[k] && codeKey(jv(data), k))))
+//@   loop 0 invariant forall k string :: $seen0[k] && codeKey(jv(data), k) ==> has(r.StatusCodeResponses, atoi(k)) && (uniqueCode(jv(data), k) ==> r.StatusCodeResponses[atoi(k)] == decOf("Response", oVal(jv(data), k)))
+//@   loop 0 invariant forall n int :: has(r.StatusCodeResponses, n) && !old(has(r.StatusCodeResponses, n)) ==> codeKey(jv(data), codeKeyOf(jv(data), n)) && atoi(codeKeyOf(jv(data), n)) == n
+//@   loop 0 invariant (oCnt(jv(data), "default") > 0 ==> r.Default != nil && freshObj(r.Default) && *r.Default == decOf("Response", oVal(jv(data), "default"))) && (oCnt(jv(data), "default") == 0 ==> r.Default == old(r.Default))
+
+//@ func (ResponsesProps).MarshalJSON
+//@   property C01, C06, C19
+//@   assigns  nothing
+//@   ensures  [C01] non-nil @@ result1 == nil ==> result0 != nil
+//@   ensures  [C01] members @@ result1 == nil ==> isObj(jv(result0)) && (forall k string :: oCnt(jv(result0), k) == ((k == "default" && r.Default != nil) || (atoiOK(k) && itoa(atoi(k)) == k && has(r.StatusCodeResponses, atoi(k))) ? 1 : 0))
+//@   ensures  [C01] default-value @@ result1 == nil && r.Default != nil ==> oVal(jv(result0), "default") == encOf(*r.Default)
+//@   ensures  [C01,C19] code-values @@ result1 == nil ==> (forall n int :: has(r.StatusCodeResponses, n) ==> oVal(jv(result0), itoa(n)) == encOf(r.StatusCodeResponses[n]))
+//@   loop 0 invariant toser != nil && (forall k string :: has(toser, k) == ((k == "default" && r.Default != nil) || (atoiOK(k) && itoa(atoi(k)) == k && $seen0[atoi(k)])))
+//@   loop 0 invariant (r.Default != nil ==> toser["default"] == *r.Default) && (forall n int :: $seen0[n] ==> toser[itoa(n)] == r.StatusCodeResponses[n])
+
+//@ axiom !isExtKey("default") && !hasPrefix("default", "x-")
+//@ axiom forall k string :: triggers(isExtKey(k)) && (hasPrefix(k, "x-") ==> isExtKey(k))
+//@ specfn deepEq(interface{}, interface{}) bool
+//@ ext reflect.DeepEqual
+//@   params x, y
+//@   assigns nothing
+//@   ensures result == deepEq(x, y)
+// reflect.DeepEqual never equates a nil pointer or nil map with a non-nil one
+//@ axiom forall a ResponsesProps, b ResponsesProps :: triggers(deepEq(iface(a), iface(b))) && (deepEq(iface(a), iface(b)) ==> (a.Default == nil) == (b.Default == nil) && (a.StatusCodeResponses == nil) == (b.StatusCodeResponses == nil))
+
+//@ func (*Responses).UnmarshalJSON
+//@   property C01, C07, C19
+//@   requires r != nil
+//@   assigns  r.Default, r.StatusCodeResponses, map(r.StatusCodeResponses), r.Extensions, map(r.Extensions)
+//@   ensures  [C01] default-kept @@ result == nil && oCnt(jv(data), "default") > 0 ==> r.Default != nil && freshObj(r.Default) && *r.Default == decOf("Response", oVal(jv(data), "default"))
+//@   ensures  [C01] default-untouched @@ result == nil && oCnt(jv(data), "default") == 0 ==> r.Default == old(r.Default)
+//@   ensures  [C01,C19] codes-kept @@ result == nil ==> (forall k string :: codeKey(jv(data), k) ==> has(r.StatusCodeResponses, atoi(k)) && (uniqueCode(jv(data), k) ==> r.StatusCodeResponses[atoi(k)] == decOf("Response", oVal(jv(data), k))))
+//@   ensures  [C07] only-codes-added @@ forall n int :: has(r.StatusCodeResponses, n) && !old(has(r.StatusCodeResponses, n)) ==> codeKey(jv(data), codeKeyOf(jv(data), n)) && atoi(codeKeyOf(jv(data), n)) == n
+//@   ensures  [C01] extensions-kept @@ result == nil ==> (forall k string :: oCnt(jv(data), k) > 0 && isExtKey(k) ==> has(r.Extensions, k) && r.Extensions[k] == decOf("interface{}", oVal(jv(data), k)))
+//@   ensures  [C07] only-extensions-added @@ forall k string :: has(r.Extensions, k) && !old(has(r.Extensions, k)) ==> isExtKey(k) && oCnt(jv(data), k) > 0
+//@   ensures  [C07] non-object-is-error @@ !isObj(jv(data)) ==> result != nil
+
+//@ func (Responses).MarshalJSON
+//@   property C01, C06, C19
+//@   assigns  nothing
+//@   ensures  [C01] non-nil @@ result1 == nil ==> result0 != nil
+//@   ensures  [C01] members @@ result1 == nil ==> isObj(jv(result0)) && (forall k string :: oCnt(jv(result0), k) == ((k == "default" && r.Default != nil) || (atoiOK(k) && itoa(atoi(k)) == k && has(r.StatusCodeResponses, atoi(k))) || (has(r.Extensions, k) && isExtKey(k)) ? 1 : 0))
+//@   ensures  [C01] default-value @@ result1 == nil && r.Default != nil ==> oVal(jv(result0), "default") == encOf(*r.Default)
+//@   ensures  [C01,C19] code-values @@ result1 == nil ==> (forall n int :: has(r.StatusCodeResponses, n) ==> oVal(jv(result0), itoa(n)) == encOf(r.StatusCodeResponses[n]))
+//@   ensures  [C01] extension-values @@ result1 == nil ==> (forall k string :: has(r.Extensions, k) && isExtKey(k) ==> oVal(jv(result0), k) == encOf(r.Extensions[k]))
+
+// normal form of a responses object: "default", canonical decimal status codes and extensions; every response member
+// round-trips (the induction hypothesis, discharged by verifLemmaResponseRoundTrip)
+//@ func verifLemmaResponsesRoundTrip
+//@   property C01, C19
+//@   chained
+//@   requires isObj(jv(data)) && noDuplicates(jv(data)) && nfExtensions(jv(data))
+//@   requires forall k string :: oCnt(jv(data), k) > 0 ==> k == "default" || isExtKey(k) || (atoiOK(k) && itoa(atoi(k)) == k)
+//@   requires forall k string :: oCnt(jv(data), k) > 0 && isExtKey(k) ==> hasPrefix(k, "x-")
+//@   requires forall k string :: oCnt(jv(data), k) > 0 && !isExtKey(k) ==> decOKOf("Response", oVal(jv(data), k)) && encOf(decOf("Response", oVal(jv(data), k))) == oVal(jv(data), k)
+//@   ensures  [C01] lossless-default @@ result != nil ==> oCnt(jv(result), "default") == oCnt(jv(data), "default") && (oCnt(jv(data), "default") > 0 ==> oVal(jv(result), "default") == oVal(jv(data), "default"))
+//@   ensures  [C01] lossless-codes @@ result != nil ==> (forall k string :: oCnt(jv(data), k) > 0 && k != "default" && !isExtKey(k) ==> oCnt(jv(result), k) == 1 && oVal(jv(result), k) == oVal(jv(data), k))
+//@   ensures  [C01] lossless-extensions @@ result != nil ==> (forall k string :: oCnt(jv(data), k) > 0 && isExtKey(k) ==> oCnt(jv(result), k) == 1 && oVal(jv(result), k) == oVal(jv(data), k))
+//@   ensures  [C01] nothing-invented @@ result != nil ==> (forall k string :: oCnt(jv(result), k) > 0 ==> oCnt(jv(data), k) > 0)
+//@   ensures  [C01] lossless @@ result != nil ==> sameObject(jv(result), jv(data))
+//@   ensures  [C19] every-response-kept @@ result != nil ==> (forall k string :: oCnt(jv(data), k) > 0 && !isExtKey(k) ==> oCnt(jv(result), k) == 1 && oVal(jv(result), k) == oVal(jv(data), k))
